@@ -113,6 +113,8 @@ TEMPLATES = [
     T('US m/d/yy', 'date', lambda d, n, s: '%02d/%02d/%02d' % (d.month, d.day, d.year % 100), flags={'dayfirst': False, 'yearfirst': False}, yy=True, group='numeric-yy'),
     T('EU d/m/yy hms', 'hms', lambda d, n, s: '%02d/%02d/%02d %s' % (d.day, d.month, d.year % 100, hms(d)), flags={'dayfirst': True, 'yearfirst': False}, yy=True, group='numeric-yy'),
     T('YF yy/m/d', 'date', lambda d, n, s: '%02d/%02d/%02d' % (d.year % 100, d.month, d.day), flags={'yearfirst': True, 'dayfirst': False}, yy=True, group='numeric-yy'),
+    T('YF yy-Mon-d', 'date', lambda d, n, s: '%02d-%s-%02d' % (d.year % 100, MON[d.month - 1], d.day), flags={'yearfirst': True}, yy=True, group='numeric-yy'),
+    T('yy>31 Mon d hm', 'hm', lambda d, n, s: '%02d %s %02d %02d:%02d' % (d.year % 100, MON[d.month - 1], d.day, d.hour, d.minute), yy=True, group='numeric-yy'),
     T('D Mon yy', 'date', lambda d, n, s: '%02d %s %02d' % (d.day, MON[d.month - 1], d.year % 100), yy=True, group='numeric-yy'),
 ]
 BY_NAME = {t.name: t for t in TEMPLATES}
@@ -162,6 +164,9 @@ def in_domain(t, dt, current_year):
             return True
         if t.name == 'YF yy/m/d':
             return True
+        if t.name == 'yy>31 Mon d hm':
+            # "99-Jan-01": a first member > 31 can only be the year
+            return yy > 31
         return True
     return True
 
